@@ -111,6 +111,11 @@ def run(c):
         extra = [dict(s, block=True) for s in scripts if s["cap"] == 1 and sum(1 for st in s["steps"] if st["op"] == "offer") >= 2][:20]
         # with blocking a refused offer would block the driver: keep only scripts whose offers all fit (checked by dry run)
         scripts += extra
+        # two consumers: the same scripts with concurrent hand-offs (verdict from the monitor only; the storage-call order is
+        # then scheduler dependent, so these runs are not sampled for strict validation)
+        two = [dict(s, consumers=2) for s in scripts if not s["block"] and sum(1 for st in s["steps"] if st["op"] == "offer") >= 2]
+        c.rng.shuffle(two)
+        scripts += two[:(40 if q else 400)]
         c.log("generated %d distinct scripts" % len(scripts))
         todo = None
 
@@ -228,7 +233,7 @@ def run(c):
                 # the death actually happened iff a crash event at that call was recorded
                 if any(e["ev"] == "crash" for e in evs):
                     level.append((s, s["dies"], cs))
-                if len(strict_sample) < (300 if q else 2000) and ix % 5 == 0:
+                if len(strict_sample) < (300 if q else 2000) and ix % 5 == 0 and s.get("consumers", 1) == 1:
                     strict_sample.append(evs)
             if lv == 1 and off == 0 and runs:
                 ex = runs[len(runs) // 2]
